@@ -89,7 +89,7 @@ func plan(tier string) []segment {
 		{"d-targets-recursive", 4, runTargetsRecursive},
 		{"d-targets-random", pick(300, 50000), runTargetsRandom},
 		// appended last: the indices of the earlier segments stay what they were
-		{"e-respelled-namespaces", pick(300, 20000), runRespelled},
+		{"e-respelled-namespaces", pick(300, 12000), runRespelled},
 	}
 }
 
